@@ -403,9 +403,9 @@ def _install_spin_detector():
         return
 
     def decompress(self, fp, max_length=-1):
-        before = self.consumed
+        before = (self.consumed, sum(self._unpacked))     # packed input taken, bytes put out by the coders of the chain
         res = orig(self, fp, max_length)
-        if len(res) == 0 and self.consumed == before and max_length != 0:
+        if len(res) == 0 and (self.consumed, sum(self._unpacked)) == before and max_length != 0:
             n = getattr(self, "_c05_quiet", 0) + 1
             self._c05_quiet = n
             if n >= SPIN_LIMIT:
